@@ -701,7 +701,7 @@ func (m *MapPollard) placeEmptyRoot(prevRootPos uint64) error {
 				m.Nodes.Delete(curPos)
 
 				_, cached := m.CachedLeaves.Get(v.Hash)
-				if cached || m.Full {
+				if cached {
 					v.Remember = true
 					m.CachedLeaves.Put(v.Hash, pos)
 				}
@@ -747,7 +747,7 @@ func (m *MapPollard) undoDeletion(proof Proof, hashes []Hash) error {
 		v, found := m.Nodes.Get(sib)
 		if found {
 			_, cached := m.CachedLeaves.Get(v.Hash)
-			if cached || m.Full {
+			if cached {
 				m.CachedLeaves.Put(v.Hash, prevPos)
 				v.Remember = true
 			}
@@ -800,6 +800,7 @@ func (m *MapPollard) undoDeletion(proof Proof, hashes []Hash) error {
 	for i, pos := range newhnp.positions {
 		// If the position is a target, then set the remember to true.
 		remember := false
+		isTarget := false
 		if m.Full {
 			remember = true
 		}
@@ -808,17 +809,20 @@ func (m *MapPollard) undoDeletion(proof Proof, hashes []Hash) error {
 				translated := translatePos(target, TreeRows(m.NumLeaves), m.TotalRows)
 				if pos == translated {
 					remember = true
+					isTarget = true
 				}
 			} else {
 				if pos == target {
 					remember = true
+					isTarget = true
 				}
 			}
 		}
 		m.Nodes.Put(pos, Leaf{Hash: newhnp.hashes[i], Remember: remember})
 
-		// Only add it to the cached leaves if remember is true.
-		if remember {
+		// Only the targets are leaves. The other positions are internal nodes
+		// and must not be added to the cached leaves.
+		if isTarget {
 			m.CachedLeaves.Put(newhnp.hashes[i], pos)
 		}
 	}
@@ -1165,17 +1169,19 @@ func (m *MapPollard) ingest(delHashes []Hash, proof Proof) error {
 	// Ingest the targets and the intermediate positions and their hashes.
 	for i, pos := range intermediate.positions {
 		remember := false
+		isTarget := false
 		if m.Full {
 			remember = true
 		}
 		for i := range hnp.positions {
 			if hnp.positions[i] == pos {
 				remember = true
+				isTarget = true
 				break
 			}
 		}
 		m.Nodes.Put(pos, Leaf{Hash: intermediate.hashes[i], Remember: remember})
-		if remember {
+		if isTarget {
 			m.CachedLeaves.Put(intermediate.hashes[i], pos)
 		}
 	}
